@@ -60,7 +60,7 @@ Print Assumptions C17_untouched_general.
    subtree is bounded by [lo, hi] (positions of its nodes and tokens and of the comments attached
    to nested nodes), the region the walk starts with is, and the end of the enclosing node
    (nend, which endOf clamps to) is unknown (NoPos) or not below lo. *)
-Theorem C17_spans_stay_within_the_walked_subtree : forall lo hi, nopos <= lo -> lo <= hi ->
+Theorem C17_spans_stay_within_the_walked_subtree : forall lo hi, nopos < lo -> lo <= hi ->
   forall script k nend r from to w,
   bounded_root lo hi from -> Inv lo hi r -> lowok lo nend -> walk script k nend r from to = Some w ->
   Forall (Good lo hi) (w_log w).
